@@ -66,6 +66,12 @@ CLAIMED = {
         "stateful property testing with fault injection and a conservation oracle",
         "DESIGN.md §4 C10",
     ),
+    "C11": (
+        "Model-based stateful property testing of the real incentive contract over a cw20 LP, a native-denom LP and the cw20 LP of a real pair (with the real frontend helper): generated histories of opening / expanding positions (declared amount vs exact, smaller, larger or missing funds / allowance; allowed durations and one just outside each bound; optional receivers), closing, withdrawing, helper deposits (user -> helper -> pair -> incentive), flows funded in the LP asset itself, claims, snapshots and epoch advances by four users. Reference model open[user][duration] / closed[user] / LP-flow funds from observed transfers. After every step the contract's LP balance equals the model total exactly, the Positions query equals the model for every user, positions only change by what was actually received, withdrawals pay exactly the caller's closed positions to the caller only, and the helper's LP and asset balances are unchanged by a helper deposit.",
+        "Native LP = plain bank denom (token-factory builds not exercised). Epoch clock = the repository's fee-distributor mock.",
+        "stateful / model-based property testing",
+        "DESIGN.md §4 C11",
+    ),
     "C12": (
         "Model-ledger stateful testing of the real incentive contract (created through the real incentive factory; cw20 or native LP; reward assets native and cw20; creation fee in another native denom, another cw20 or the reward asset itself): generated histories of flow openings with exact / fee-only / short / over-paid / missing funds and default or explicit epochs (incl. > 180), expansions by creator or others, closes by creator / factory owner / stranger, positions, snapshots, epoch advances and claims. The reference ledger outstanding[flow] is built only from transfers the harness observes and must equal funded - claimed read from the contract's raw storage after every step; the fee must reach the collector; balances cover the sum of outstanding; closing pays exactly outstanding to the creator and is refused to strangers.",
         "Flows are read from raw storage because the Flow/Flows queries trim histories to 100 epochs. Epoch clock = the repository's fee-distributor mock. Reward assets distinct from the LP asset here (LP-asset flows are in C11).",
